@@ -1,10 +1,12 @@
 (** * ParSem.v — the meaning of a parallel loop: its iterations executed in ANY order.
 
-    Part 1 (abstract): an iteration is a state transformer on a memory [C -> V] that reports the
-    footprint it had (cells read / written / reduced).  It RESPECTS its footprint when
-      - it changes no cell outside the written and reduced ones (frame), and
-      - run on any memory that agrees on the cells it read, it succeeds with the same footprint, writes the
-        same values, and adds the same increments to the purely reduced cells (determinacy).
+    Part 1 (abstract): an iteration is a transformer of states (observed through [get : S -> C -> V],
+    up to a shape equivalence [sim]) that reports the footprint it had (cells read / written / reduced).
+    It RESPECTS its footprint when
+      - it keeps the shape and changes no cell outside the written and reduced ones (frame), and
+      - run on any state of the same shape that agrees on the cells it read or reduced, it succeeds with
+        the same footprint and leaves equal contents in every cell that agreed or that it writes or
+        reduces (determinacy).
     If the footprints observed in the sequential execution are pairwise non-conflicting (what
     [Footprint.races] checks), then every permutation of the iterations succeeds, observes the same
     footprints and ends in the same memory ([perm_run]).
@@ -20,15 +22,22 @@ Import ListNotations.
 
 (** ** Part 1: footprint-respecting actions *)
 Section FpActions.
-  Variables C V I : Type.
+  (** states, cells, cell contents, iteration identifiers *)
+  Variables S C V I : Type.
   Hypothesis Ceq : forall a b : C, {a = b} + {a <> b}.
-  Variable add : V -> V -> V.
+  Variable get : S -> C -> V.
+  (** "same shape": an equivalence that the actions preserve (for Core: same environment, allocation
+      counter and block sizes) *)
+  Variable sim : S -> S -> Prop.
+  Hypothesis sim_refl : forall s, sim s s.
+  Hypothesis sim_sym : forall s s', sim s s' -> sim s' s.
+  Hypothesis sim_trans : forall s s' s'', sim s s' -> sim s' s'' -> sim s s''.
   (** footprints: any type with the lists of cells read, written and reduced *)
   Variable fp : Type.
   Variables fR fW fP : fp -> list C.
 
-  Definition mem := C -> V.
-  Definition meq (m m' : mem) : Prop := forall c, m c = m' c.
+  (** same shape and same content of every cell *)
+  Definition seqv (s s' : S) : Prop := sim s s' /\ forall c, get s c = get s' c.
 
   Definition modifies (f : fp) (c : C) : Prop := In c (fW f) \/ In c (fP f).
   Definition touches (f : fp) (c : C) : Prop := In c (fR f) \/ modifies f c.
@@ -39,93 +48,92 @@ Section FpActions.
   Lemma nonconf_sym : forall f g, nonconf f g -> nonconf g f.
   Proof. intros f g H c. destruct (H c). split; assumption. Qed.
 
-  Definition action := mem -> option (mem * fp).
+  Lemma modifies_dec : forall f c, {modifies f c} + {~ modifies f c}.
+  Proof.
+    intros f c. destruct (in_dec Ceq c (fW f)); [left; left; assumption|].
+    destruct (in_dec Ceq c (fP f)); [left; right; assumption|right; intros [?|?]; contradiction].
+  Qed.
+
+  Definition action := S -> option (S * fp).
 
   Record respects (a : action) : Prop := mkRespects {
-    r_frame : forall m m' f, a m = Some (m', f) -> forall c, ~ modifies f c -> m' c = m c;
-    r_det : forall m m' f, a m = Some (m', f) ->
-      forall m2, (forall c, In c (fR f) -> m2 c = m c) ->
-      exists m2', a m2 = Some (m2', f)
-        /\ (forall c, In c (fW f) -> m2' c = m' c)
-        /\ (forall c, In c (fP f) -> ~ In c (fW f) -> exists d, m' c = add (m c) d /\ m2' c = add (m2 c) d)
+    (** frame: the shape is kept and only written / reduced cells change *)
+    r_frame : forall s s' f, a s = Some (s', f) ->
+      sim s s' /\ forall c, ~ modifies f c -> get s' c = get s c;
+    (** determinacy: from a state of the same shape that agrees on the cells read or reduced, the action
+        succeeds with the same footprint, and every cell that agreed or is written / reduced agrees after *)
+    r_det : forall s s' f, a s = Some (s', f) ->
+      forall s2, sim s s2 -> (forall c, In c (fR f) \/ In c (fP f) -> get s2 c = get s c) ->
+      exists s2', a s2 = Some (s2', f) /\ sim s' s2' /\
+        forall c, (get s2 c = get s c \/ modifies f c) -> get s2' c = get s' c
   }.
 
-  Lemma respects_ext : forall a, respects a -> forall m m' f m2,
-    a m = Some (m', f) -> meq m m2 -> exists m2', a m2 = Some (m2', f) /\ meq m' m2'.
+  Lemma respects_ext : forall a, respects a -> forall s s' f s2,
+    a s = Some (s', f) -> seqv s s2 -> exists s2', a s2 = Some (s2', f) /\ seqv s' s2'.
   Proof.
-    intros a Ha m m' f m2 E Q.
-    destruct (r_det a Ha m m' f E m2) as (m2' & E2 & HW & HP); [intros c _; symmetry; apply Q|].
-    exists m2'. split; [assumption|]. intros c.
-    destruct (in_dec Ceq c (fW f)) as [w|nw]; [symmetry; apply HW; assumption|].
-    destruct (in_dec Ceq c (fP f)) as [p|np].
-    - destruct (HP c p nw) as (d & D1 & D2). rewrite D1, D2, (Q c). reflexivity.
-    - assert (N : ~ modifies f c) by (intros [?|?]; contradiction).
-      rewrite (r_frame a Ha m m' f E c N), (r_frame a Ha m2 m2' f E2 c N). apply Q.
+    intros a Ha s s' f s2 E [Sm Q].
+    destruct (r_det a Ha s s' f E s2 Sm) as (s2' & E2 & Sm' & G); [intros c _; symmetry; apply Q|].
+    exists s2'. split; [assumption|]. split; [assumption|].
+    intros c. symmetry. apply G. left. symmetry. apply Q.
   Qed.
 
   (** two adjacent non-conflicting iterations can be exchanged *)
   Lemma swap : forall a1 a2, respects a1 -> respects a2 ->
-    forall m m1 f1 m12 f2, a1 m = Some (m1, f1) -> a2 m1 = Some (m12, f2) -> nonconf f1 f2 ->
-    exists m2 m21, a2 m = Some (m2, f2) /\ a1 m2 = Some (m21, f1) /\ meq m21 m12.
+    forall s s1 f1 s12 f2, a1 s = Some (s1, f1) -> a2 s1 = Some (s12, f2) -> nonconf f1 f2 ->
+    exists s2 s21, a2 s = Some (s2, f2) /\ a1 s2 = Some (s21, f1) /\ seqv s21 s12.
   Proof.
-    intros a1 a2 H1 H2 m m1 f1 m12 f2 E1 E2 NC.
-    (* a2 reads nothing a1 modified *)
-    destruct (r_det a2 H2 m1 m12 f2 E2 m) as (m2 & E2' & W2 & P2).
-    { intros c Hc. symmetry. apply (r_frame a1 H1 m m1 f1 E1). intros M.
-      destruct (NC c) as [N _]. apply (N M). left; assumption. }
-    (* a1 reads nothing a2 modifies *)
-    destruct (r_det a1 H1 m m1 f1 E1 m2) as (m21 & E1' & W1 & P1).
-    { intros c Hc. apply (r_frame a2 H2 m m2 f2 E2'). intros M.
-      destruct (NC c) as [_ N]. apply (N M). left; assumption. }
-    exists m2, m21. split; [assumption|]. split; [assumption|]. intros c.
-    destruct (NC c) as [N12 N21].
-    destruct (in_dec Ceq c (fW f1)) as [w1|nw1].
-    { (* written by a1: untouched by a2 *)
-      assert (U : ~ modifies f2 c) by (intros M; apply (N12 (or_introl w1)); right; assumption).
-      rewrite (W1 c w1). symmetry. apply (r_frame a2 H2 m1 m12 f2 E2 c U). }
-    destruct (in_dec Ceq c (fP f1)) as [p1|np1].
-    { assert (U : ~ modifies f2 c) by (intros M; apply (N12 (or_intror p1)); right; assumption).
-      destruct (P1 c p1 nw1) as (d & D1 & D2).
-      rewrite D2, (r_frame a2 H2 m m2 f2 E2' c U), (r_frame a2 H2 m1 m12 f2 E2 c U), D1. reflexivity. }
-    assert (U1 : ~ modifies f1 c) by (intros [?|?]; contradiction).
-    rewrite (r_frame a1 H1 m2 m21 f1 E1' c U1).
-    destruct (in_dec Ceq c (fW f2)) as [w2|nw2]; [apply W2; assumption|].
-    destruct (in_dec Ceq c (fP f2)) as [p2|np2].
-    { destruct (P2 c p2 nw2) as (d & D1 & D2).
-      rewrite D2, D1, (r_frame a1 H1 m m1 f1 E1 c U1). reflexivity. }
-    assert (U2 : ~ modifies f2 c) by (intros [?|?]; contradiction).
-    rewrite (r_frame a2 H2 m m2 f2 E2' c U2), (r_frame a2 H2 m1 m12 f2 E2 c U2).
-    symmetry. apply (r_frame a1 H1 m m1 f1 E1 c U1).
+    intros a1 a2 H1 H2 s s1 f1 s12 f2 E1 E2 NCf.
+    destruct (r_frame a1 H1 s s1 f1 E1) as [Sm1 Fr1].
+    destruct (r_frame a2 H2 s1 s12 f2 E2) as [Sm12 Fr12].
+    (* a2 reads and reduces nothing a1 modified *)
+    destruct (r_det a2 H2 s1 s12 f2 E2 s (sim_sym _ _ Sm1)) as (s2 & E2' & SmA & GA).
+    { intros c Hc. symmetry. apply Fr1. intros M. destruct (NCf c) as [N _]. apply (N M).
+      destruct Hc; [left; assumption|right; right; assumption]. }
+    destruct (r_frame a2 H2 s s2 f2 E2') as [Sm2 Fr2].
+    (* a1 reads and reduces nothing a2 modifies *)
+    destruct (r_det a1 H1 s s1 f1 E1 s2 Sm2) as (s21 & E1' & SmB & GB).
+    { intros c Hc. apply Fr2. intros M. destruct (NCf c) as [_ N]. apply (N M).
+      destruct Hc; [left; assumption|right; right; assumption]. }
+    destruct (r_frame a1 H1 s2 s21 f1 E1') as [Sm21 Fr21].
+    exists s2, s21. split; [assumption|]. split; [assumption|]. split.
+    - apply (sim_trans _ s1); [apply sim_sym; assumption|assumption].
+    - intros c. destruct (NCf c) as [N12 N21].
+      destruct (modifies_dec f1 c) as [M1|M1].
+      + assert (U : ~ modifies f2 c) by (intros M; apply (N12 M1); right; assumption).
+        rewrite (GB c (or_intror M1)). symmetry. apply Fr12. assumption.
+      + rewrite (Fr21 c M1). destruct (modifies_dec f2 c) as [M2|M2].
+        * symmetry. symmetry. apply GA. right. assumption.
+        * rewrite (Fr2 c M2), (Fr12 c M2). symmetry. apply Fr1. assumption.
   Qed.
 
   (** *** executing a list of iterations, collecting each one's footprint *)
   Variable act : I -> action.
   Hypothesis act_respects : forall i, respects (act i).
 
-  Fixpoint run_iters (l : list I) (m : mem) : option (mem * list (I * fp)) :=
+  Fixpoint run_iters (l : list I) (s : S) : option (S * list (I * fp)) :=
     match l with
-    | [] => Some (m, [])
+    | [] => Some (s, [])
     | i :: r =>
-        match act i m with
+        match act i s with
         | None => None
-        | Some (m1, f) =>
-            match run_iters r m1 with
+        | Some (s1, f) =>
+            match run_iters r s1 with
             | None => None
-            | Some (m2, fs) => Some (m2, (i, f) :: fs)
+            | Some (s2, fs) => Some (s2, (i, f) :: fs)
             end
         end
     end.
 
-  Lemma run_ext : forall l m mf fps m2, run_iters l m = Some (mf, fps) -> meq m m2 ->
-    exists mf2, run_iters l m2 = Some (mf2, fps) /\ meq mf mf2.
+  Lemma run_ext : forall l s sf fps s2, run_iters l s = Some (sf, fps) -> seqv s s2 ->
+    exists sf2, run_iters l s2 = Some (sf2, fps) /\ seqv sf sf2.
   Proof.
-    induction l as [|i r IH]; intros m mf fps m2 E Q; simpl in *.
-    - inversion E; subst. exists m2. split; [reflexivity|assumption].
-    - destruct (act i m) as [[m1 f]|] eqn:A; [|discriminate].
-      destruct (run_iters r m1) as [[mr fs]|] eqn:R; [|discriminate]. inversion E; subst.
-      destruct (respects_ext _ (act_respects i) m m1 f m2 A Q) as (m1' & A' & Q1).
-      destruct (IH m1 mf fs m1' R Q1) as (mf2 & R' & Qf).
-      exists mf2. rewrite A', R'. split; [reflexivity|assumption].
+    induction l as [|i r IH]; intros s sf fps s2 E Q; simpl in *.
+    - inversion E; subst. exists s2. split; [reflexivity|assumption].
+    - destruct (act i s) as [[s1 f]|] eqn:A; [|discriminate].
+      destruct (run_iters r s1) as [[sr fs]|] eqn:R; [|discriminate]. inversion E; subst.
+      destruct (respects_ext _ (act_respects i) s s1 f s2 A Q) as (s1' & A' & Q1).
+      destruct (IH s1 sf fs s1' R Q1) as (sf2 & R' & Qf).
+      exists sf2. rewrite A', R'. split; [reflexivity|assumption].
   Qed.
 
   Definition NC (x y : I * fp) : Prop := nonconf (snd x) (snd y).
@@ -144,32 +152,41 @@ Section FpActions.
     - auto.
   Qed.
 
-  Theorem perm_run : forall l l', Permutation l l' ->
-    forall m mf fps, run_iters l m = Some (mf, fps) -> race_free fps ->
-    exists mf' fps', run_iters l' m = Some (mf', fps') /\ meq mf mf' /\ Permutation fps fps'.
+  Lemma seqv_trans : forall a b c, seqv a b -> seqv b c -> seqv a c.
   Proof.
-    induction 1 as [|x l l' P IH|x y l|l l' l'' P1 IH1 P2 IH2]; intros m mf fps E F.
-    - exists mf, fps. split; [assumption|]. split; [intros c; reflexivity|apply Permutation_refl].
-    - simpl in *. destruct (act x m) as [[m1 f]|] eqn:A; [|discriminate].
-      destruct (run_iters l m1) as [[mr fs]|] eqn:R; [|discriminate]. inversion E; subst.
+    intros a b c [S1 Q1] [S2 Q2]. split; [eapply sim_trans; eassumption|].
+    intros x. rewrite (Q1 x). apply Q2.
+  Qed.
+  Lemma seqv_sym : forall a b, seqv a b -> seqv b a.
+  Proof. intros a b [S1 Q1]. split; [apply sim_sym; assumption|intros x; symmetry; apply Q1]. Qed.
+  Lemma seqv_refl : forall a, seqv a a.
+  Proof. intros a. split; [apply sim_refl|reflexivity]. Qed.
+
+  Theorem perm_run : forall l l', Permutation l l' ->
+    forall s sf fps, run_iters l s = Some (sf, fps) -> race_free fps ->
+    exists sf' fps', run_iters l' s = Some (sf', fps') /\ seqv sf sf' /\ Permutation fps fps'.
+  Proof.
+    induction 1 as [|x l l' P IH|x y l|l l' l'' P1 IH1 P2 IH2]; intros s sf fps E F.
+    - exists sf, fps. split; [assumption|]. split; [apply seqv_refl|apply Permutation_refl].
+    - simpl in *. destruct (act x s) as [[s1 f]|] eqn:A; [|discriminate].
+      destruct (run_iters l s1) as [[sr fs]|] eqn:R; [|discriminate]. inversion E; subst.
       inversion F; subst.
-      destruct (IH m1 mf fs R) as (mf' & fs' & R' & Q & Pf); [assumption|].
-      exists mf', ((x, f) :: fs'). rewrite R'. split; [reflexivity|]. split; [assumption|].
+      destruct (IH s1 sf fs R) as (sf' & fs' & R' & Q & Pf); [assumption|].
+      exists sf', ((x, f) :: fs'). rewrite R'. split; [reflexivity|]. split; [assumption|].
       apply perm_skip; assumption.
-    - simpl in *. destruct (act y m) as [[m1 f1]|] eqn:A1; [|discriminate].
-      destruct (act x m1) as [[m12 f2]|] eqn:A2; [|discriminate].
-      destruct (run_iters l m12) as [[mr fs]|] eqn:R; [|discriminate]. inversion E; subst.
+    - simpl in *. destruct (act y s) as [[s1 f1]|] eqn:A1; [|discriminate].
+      destruct (act x s1) as [[s12 f2]|] eqn:A2; [|discriminate].
+      destruct (run_iters l s12) as [[sr fs]|] eqn:R; [|discriminate]. inversion E; subst.
       inversion F as [|? ? Fy _]; subst. inversion Fy as [|? ? Nyx _]; subst.
-      destruct (swap _ _ (act_respects y) (act_respects x) m m1 f1 m12 f2 A1 A2 Nyx)
-        as (m2 & m21 & B2 & B1 & Q).
-      assert (Q' : meq m12 m21) by (intros c; symmetry; apply Q).
-      destruct (run_ext l m12 mf fs m21 R Q') as (mf2 & R' & Qf).
-      exists mf2, ((x, f2) :: (y, f1) :: fs). rewrite B2, B1, R'.
+      destruct (swap _ _ (act_respects y) (act_respects x) s s1 f1 s12 f2 A1 A2 Nyx)
+        as (s2 & s21 & B2 & B1 & Q).
+      destruct (run_ext l s12 sf fs s21 R (seqv_sym _ _ Q)) as (sf2 & R' & Qf).
+      exists sf2, ((x, f2) :: (y, f1) :: fs). rewrite B2, B1, R'.
       split; [reflexivity|]. split; [assumption|apply perm_swap].
-    - destruct (IH1 m mf fps E F) as (mf1 & fps1 & E1 & Q1 & Pf1).
-      destruct (IH2 m mf1 fps1 E1 (race_free_perm _ _ Pf1 F)) as (mf2 & fps2 & E2 & Q2 & Pf2).
-      exists mf2, fps2. split; [assumption|]. split.
-      + intros c. rewrite (Q1 c). apply Q2.
+    - destruct (IH1 s sf fps E F) as (sf1 & fps1 & E1 & Q1 & Pf1).
+      destruct (IH2 s sf1 fps1 E1 (race_free_perm _ _ Pf1 F)) as (sf2 & fps2 & E2 & Q2 & Pf2).
+      exists sf2, fps2. split; [assumption|]. split.
+      + eapply seqv_trans; eassumption.
       + eapply Permutation_trans; eassumption.
   Qed.
 End FpActions.
